@@ -17,13 +17,18 @@ Reduce(p, q) ==                     \* q # 0; result has positive denominator
     LET g == GCD(Abs(p), Abs(q))
         s == Sgn(q)
     IN  <<(s * p) \div g, (s * q) \div g>>
-RatEq(a, b)  == a[1] * b[2] = b[1] * a[2]           \* positive denominators
-RatLt(a, b)  == a[1] * b[2] < b[1] * a[2]
-RatLe(a, b)  == a[1] * b[2] <= b[1] * a[2]
-RatAdd(a, b) == Reduce(a[1] * b[2] + b[1] * a[2], a[2] * b[2])
-RatSub(a, b) == Reduce(a[1] * b[2] - b[1] * a[2], a[2] * b[2])
-RatMul(a, b) == Reduce(a[1] * b[1], a[2] * b[2])
-RatDiv(a, b) == Reduce(a[1] * b[2], a[2] * b[1])    \* b # 0
+(* all operations divide by common factors first: TLC integers are 32 bit and TLC reports  *)
+(* an overflow as an error instead of wrapping                                            *)
+RatEq(a, b)  == a = b                                  \* both reduced, positive denominators
+RatLt(a, b)  == LET g == GCD(a[2], b[2]) IN a[1] * (b[2] \div g) < b[1] * (a[2] \div g)
+RatLe(a, b)  == LET g == GCD(a[2], b[2]) IN a[1] * (b[2] \div g) <= b[1] * (a[2] \div g)
+RatAdd(a, b) == LET g == GCD(a[2], b[2]) IN
+                Reduce(a[1] * (b[2] \div g) + b[1] * (a[2] \div g), (a[2] \div g) * b[2])
+RatSub(a, b) == RatAdd(a, <<-b[1], b[2]>>)
+RatMul(a, b) == LET g1 == GCD(a[1], b[2])  g2 == GCD(b[1], a[2])
+                    h1 == IF g1 = 0 THEN 1 ELSE g1      h2 == IF g2 = 0 THEN 1 ELSE g2
+                IN  Reduce((a[1] \div h1) * (b[1] \div h2), (a[2] \div h2) * (b[2] \div h1))
+RatDiv(a, b) == RatMul(a, IF b[1] < 0 THEN <<-b[2], -b[1]>> ELSE <<b[2], b[1]>>)    \* b # 0
 
 (* ------------------------------------------------------------------ vectors *)
 VAdd(u, v)   == <<u[1] + v[1], u[2] + v[2], u[3] + v[3]>>
@@ -79,8 +84,10 @@ QuatMat(q) ==
 (* representative is  << sign(dot), cos^2 >>  with cos^2 = dot^2 / (|b1|^2 |b2|^2)     *)
 (* a reduced rational.  2theta = atan2(sqrt(cross2), dot) is evaluated from the exact   *)
 (* pair by the harness (TLC has no reals).                                             *)
+ClassUndefined == <<2, <<0, 1>>>>   \* one of the vectors is zero: no angle
 AngleClass(b1, b2) ==
-    LET d == Dot(b1, b2) IN <<Sgn(d), Reduce(d * d, Norm2(b1) * Norm2(b2))>>
+    LET d == Dot(b1, b2)  nn == Norm2(b1) * Norm2(b2) IN
+    IF nn = 0 THEN ClassUndefined ELSE <<Sgn(d), Reduce(d * d, nn)>>
 
 (* the same class from an exact pair (dot, cross2): cos^2 = dot^2 / (dot^2 + cross2)   *)
 ClassOfPair(d, c2) == <<Sgn(d), Reduce(d * d, d * d + c2)>>
